@@ -362,7 +362,9 @@ def _stmt_of(fi, node):
 
 # ----------------------------------------------------------------------------------------------
 PURE_FUNCS = {'format', 'shape', 'sum', 'max', 'min', 'mean', 'astype', 'round', 'floor', 'abs', 'log2', 'len',
-              'type', 'keys', 'std', 'str', 'int', 'float', 'ceil', 'sqrt'}
+              'type', 'keys', 'std', 'str', 'int', 'float', 'ceil', 'sqrt',
+              'current_process',        # multiprocessing.current_process(): identifies the worker, reads no logger state
+              'getpid', 'bool', 'repr', 'join', 'tolist', 'item', 'size', 'ndim'}
 
 
 def rule_non_interference(ctx, rid):
@@ -423,16 +425,37 @@ def rule_transparent_decorators(ctx, rid):
         c = 'decorator calls the wrapped function once with (*args, **kwargs) and returns its result unchanged'
         calls = [n for n in walk_local(fi.node) if isinstance(n, ast.Call) and isinstance(n.func, ast.Name)
                  and n.func.id == 'func']
-        if len(calls) != 1:
-            ctx.violation(rid, fi, c, 'the wrapped function is called %d times' % len(calls), node=fi.node)
+        if not calls:
+            ctx.violation(rid, fi, c, 'the wrapped function is never called', node=fi.node)
             continue
-        call = calls[0]
-        okargs = (len(call.args) == 1 and isinstance(call.args[0], ast.Starred) and isinstance(call.args[0].value, ast.Name)
-                  and call.args[0].value.id == fi.vararg and len(call.keywords) == 1 and call.keywords[0].arg is None
-                  and isinstance(call.keywords[0].value, ast.Name) and call.keywords[0].value.id == fi.kwarg)
-        if not okargs:
-            ctx.violation(rid, fi, c, 'the wrapped function is not called with (*args, **kwargs): `%s`' % unparse(call),
-                          node=call)
+        badcall = None
+        for call in calls:
+            okargs = (len(call.args) == 1 and isinstance(call.args[0], ast.Starred)
+                      and isinstance(call.args[0].value, ast.Name) and call.args[0].value.id == fi.vararg
+                      and len(call.keywords) == 1 and call.keywords[0].arg is None
+                      and isinstance(call.keywords[0].value, ast.Name) and call.keywords[0].value.id == fi.kwarg)
+            if not okargs:
+                badcall = call
+        if badcall is not None:
+            ctx.violation(rid, fi, c, 'the wrapped function is not called with (*args, **kwargs): `%s`'
+                          % unparse(badcall), node=badcall)
+            continue
+        # exactly one call on every path (several call sites are fine when they sit on different paths)
+        callnodes = set(id(n) for n in calls)
+
+        def obs(node, term, st):
+            if id(node) in callnodes:
+                st.effects.append(('wrapped-call', getattr(node, 'lineno', 0)))
+        evc = Evaluator(P, observer=obs)
+        counts = {}
+        for e in evc.run(fi):
+            if e.kind == 'return':
+                k = sum(1 for eff in e.state.effects if eff[0] == 'wrapped-call')
+                counts.setdefault(k, e)
+        wrong = sorted(k for k in counts if k != 1)
+        if wrong:
+            ctx.violation(rid, fi, c, 'the wrapped function is called %d times on a normal path' % wrong[0],
+                          node=fi.node, path=trace_tail(counts[wrong[0]].state))
             continue
         # args/kwargs not modified before the call
         mods = [n for n in walk_local(fi.node) if isinstance(n, (ast.Subscript, ast.Name)) and isinstance(getattr(n, 'ctx', None), (ast.Store, ast.Del))
@@ -487,6 +510,68 @@ def _closure(P, q):
     return seen
 
 
+def _console_only(P, fi, action):
+    """Every access to <handler>.setLevel / <handler>.level on the evaluated paths is on a handler h for which the
+    path (or the generator that produced h) established h.get_name() == 'console'.  Helpers are inlined, so the
+    filter may be an `if` in the loop, a generator expression, or a helper returning one."""
+    exits = Evaluator(P).run(fi)
+
+    def is_console_test(c, h):
+        return c[0] == 'cmp' and c[1] == '==' and c[3] == C('console') and c[2][0] == 'meth' \
+            and c[2][1] == 'get_name' and c[2][2] == h
+
+    def filtered_source(var, it):
+        """generator / comprehension chain down to the handlers: is `var` restricted to console handlers?"""
+        seen = 0
+        while it[0] == 'comp' and len(it[3]) == 1 and seen < 4:
+            v2, it2, conds = it[3][0]
+            if it[2] == v2 and any(is_console_test(c, v2) for c in conds):
+                return True
+            if it[2] != v2:
+                return False
+            it = it2
+            seen += 1
+        return False
+    nacc = 0
+    why = ''
+    ok = True
+
+    def accesses(t):
+        for x in subterms(t):
+            if action == 'setLevel' and x[0] == 'meth' and x[1] == 'setLevel':
+                yield x[2]
+            if action == 'level' and x[0] == 'attr' and x[2] == 'level':
+                yield x[1]
+    for e in exits:
+        # loop form
+        for ls in e.state.loops:
+            if ls.kind != 'for':
+                continue
+            src_ok = filtered_source(ls.var, ls.iter_term)
+            for kind, b in ls.body_states:
+                terms = [eff[1] for eff in b.effects if eff[0] == 'expr']
+                for h in [h for t in terms for h in accesses(t)]:
+                    nacc += 1
+                    if h != ls.var or not (src_ok or any(tr and is_console_test(cd, h) for cd, tr, ln in b.conds)):
+                        ok, why = False, show(h)[:40]
+        if e.kind == 'return' and e.value is not None:
+            v = e.value
+            for h in accesses(v):
+                nacc += 1
+                good = any(tr and is_console_test(cd, h) for cd, tr, ln in e.state.conds)
+                # generator form: next((h.level for h in <filtered>), None)
+                for x in subterms(v):
+                    if x[0] == 'comp' and len(x[3]) == 1 and x[3][0][0] == h:
+                        var, it, conds = x[3][0]
+                        if any(is_console_test(c, var) for c in conds) or filtered_source(var, it):
+                            good = True
+                if not good:
+                    ok, why = False, show(v)[:60]
+    if nacc == 0:
+        return False, 0, 'no access to a handler level found'
+    return ok, nacc, why
+
+
 def rule_accessors(ctx, rid):
     P = ctx.P
     for q, action in (('emd.logger.set_level', 'setLevel'), ('emd.logger.get_level', 'level')):
@@ -498,24 +583,12 @@ def rule_accessors(ctx, rid):
                               and getlog[0].args[0].value == 'emd'):
             ctx.violation(rid, fi, c, "the accessor does not work on logging.getLogger('emd')", node=fi.node)
             continue
-        acts = []
-        for n in walk_local(fi.node):
-            if isinstance(n, ast.Attribute) and n.attr == action:
-                acts.append(n)
-        ok = bool(acts)
-        for a in acts:
-            st = _stmt_of(fi, a)
-            guards = guards_of(fi, st)
-            g_ok = any(pol and isinstance(t, ast.Compare) and isinstance(t.ops[0], ast.Eq)
-                       and isinstance(t.comparators[0], ast.Constant) and t.comparators[0].value == 'console'
-                       and 'get_name' in unparse(t.left) for t, pol in guards)
-            if not g_ok:
-                ok = False
+        ok, nacc, why = _console_only(P, fi, action)
         if ok:
-            ctx.passed(rid, fi, c, '%d guarded access(es)' % len(acts))
+            ctx.passed(rid, fi, c, '%d guarded access state(s)' % nacc)
         else:
-            ctx.violation(rid, fi, c, "a handler's level is read/written without the name=='console' guard",
-                          node=acts[0] if acts else fi.node)
+            ctx.violation(rid, fi, c, "a handler's level is read/written without the name=='console' guard: " + why,
+                          node=fi.node)
         # an accessor must not configure logging: the verbosity wrapper calls it before the logger is set up and
         # restores nothing in that case, so a handler created here outlives the call at the override level
         c2 = '%s does not set up or reconfigure logging' % fi.name
